@@ -109,6 +109,14 @@ CHECKS.update({
     ),
 })
 
+CHECKS.update({
+    "C14": dict(
+        technique="model-based stateful property testing: generated operation histories over several cstruct objects and a pool of instances, with a per-instance deep-copied model and invariants checked after every step",
+        text="generated histories (construct / keyword-construct / partial construct / parse / assign / in-place mutate arrays and nested structures / append / dump / flip endianness / load / alias / #define / failing parse) over 1-3 cstruct objects whose same-named types differ; after every step every live instance must equal its own model, T() must equal the reference zero value and parse/dump must equal the reference under that object's current endianness",
+        design_ref="DESIGN.md §4 C14",
+    ),
+})
+
 NOT_YET = {}
 
 
